@@ -197,7 +197,7 @@ func init() {
 			if tier == "thorough" {
 				return 20000
 			}
-			return 600
+			return 1500
 		},
 		Run:       c07Run,
 		MustProbe: []string{"first_match_not_first_level", "no_level_matches", "wrong_mask_length", "timeline_through_one_options_value"},
